@@ -20,9 +20,10 @@
    dat r / uid r     the data (nil map read as empty) and the user ID of a record
    probe_ok c t q rk, probe_q k r2, req_end w r, pres w r   as in C10H.v
    pcalls l          the number of persistence calls among the events l
-   plainop op        op is Set, Delete or Get
+   plainop op        op is Set, Delete, Get or GetAndDelete
    DS d ops x        x is the data after some prefix of the operations ops,
-                     starting from d (dnext: Set / Delete applied to the data) *)
+                     starting from d (dnext: Set / Delete /
+                     GetAndDelete applied to the data) *)
 From Sessions Require Import Model.Base Model.Sess Model.Hist Proofs.SessDefs
   Proofs.HistInv Proofs.HistInv2 Proofs.HistInv3.
 From Sessions Require Import Proofs.CrashFault3 Proofs.CrashFault5 Proofs.CrashFault6 Proofs.LiveHist4.
@@ -120,7 +121,7 @@ Proof. exact restart_new_login. Qed.
 (* --------- operations before and after RegenerateID in the same script -------- *)
 
 Theorem C10L_plainop_def : forall op,
-  plainop op = match op with SSet _ _ | SDel _ | SGet _ => true | _ => false end.
+  plainop op = match op with SSet _ _ | SDel _ | SGet _ | SGetDel _ => true | _ => false end.
 Proof. exact plainop_def. Qed.
 
 Theorem C10L_DS_def : forall d ops x,
@@ -128,11 +129,11 @@ Theorem C10L_DS_def : forall d ops x,
 Proof. exact DS_meaning. Qed.
 
 Theorem C10L_dnext_def : forall d op,
-  dnext d op = match op with SSet k v => kv_set d k v | SDel k => kv_del d k | _ => d end.
+  dnext d op = match op with SSet k v => kv_set d k v | SDel k | SGetDel k => kv_del d k | _ => d end.
 Proof. exact dnext_def. Qed.
 
 (* C10H_restart_old generalised: the script is pre ++ [RegenerateID] ++ post with
-   pre, post lists of Set / Delete / Get; the session's data map is d0. After a
+   pre, post lists of Set / Delete / Get / GetAndDelete; the session's data map is d0. After a
    crash at ANY persistence-call boundary of the step — inside pre, inside
    RegenerateID, inside post — a request presenting the OLD ID is served: Start
    returns a session, not a replaced-ID record, with the pre-call user, whose
@@ -229,6 +230,19 @@ Theorem C10L_ex_outcomes_script :
    (RSess, Some (KGen 2, [(3%N, 4%N)], Some 5%N))].
 Proof. exact restart_script_ex. Qed.
 
+(* the same with GetAndDelete: an absent key first (no persistence call), then
+   Set 3 4; RegenerateID; GetAndDelete 1 — the same outcomes at every crash point *)
+Theorem C10L_ex_scenario_script_getdel : forall n,
+  hcrash wG (r1G n) n (KGen 1) 0 obG ([SGetDel 9; SSet 3 4] ++ SRegen :: [SGetDel 1]).
+Proof. exact script_crash_ex_getdel. Qed.
+
+Theorem C10L_ex_outcomes_script_getdel :
+  forallb plainop [SGetDel 9; SSet 3 4] = true /\ forallb plainop [SGetDel 1] = true /\
+  map (fun j => dafter [(1%N, 2%N)] (firstn j ([SGetDel 9; SSet 3 4] ++ [SGetDel 1]))) [0; 1; 2; 3]%nat =
+    [[(1%N, 2%N)]; [(1%N, 2%N)]; [(1%N, 2%N); (3%N, 4%N)]; [(3%N, 4%N)]] /\
+  map outcomeG [0; 1; 2; 3; 4; 5; 6]%nat = map outcomeS [0; 1; 2; 3; 4; 5; 6]%nat.
+Proof. exact restart_script_ex_getdel. Qed.
+
 Print Assumptions C10L_scenario.
 Print Assumptions C10L_scenario_regen.
 Print Assumptions C10L_crash_world_login.
@@ -246,3 +260,5 @@ Print Assumptions C10L_ex_probe_login.
 Print Assumptions C10L_ex_new_login.
 Print Assumptions C10L_ex_scenario_script.
 Print Assumptions C10L_ex_outcomes_script.
+Print Assumptions C10L_ex_scenario_script_getdel.
+Print Assumptions C10L_ex_outcomes_script_getdel.
